@@ -53,7 +53,7 @@ def cases(draw):
         for i in draw(st.lists(st.integers(0, n - 1), min_size=2, max_size=3)):
             states[i] = "corrupt"
         verify = True
-    return {"hsalt": draw(st.integers(0, 15)), "threads": draw(st.sampled_from(["sync", "async"])), "fmt": draw(st.sampled_from(["sdmf", "mdmf"])), "k": k, "n": n, "servers": servers, "states": states, "dups": dups,
+    return {"hsalt": draw(st.integers(0, 15)), "threads": draw(st.sampled_from(["sync", "async", "held"])), "fmt": draw(st.sampled_from(["sdmf", "mdmf"])), "k": k, "n": n, "servers": servers, "states": states, "dups": dups,
             "verify": verify, "force": draw(st.booleans()), "via": draw(st.sampled_from(["check+repair", "check+repair", "check_and_repair"])), "sched": draw(st.lists(st.integers(0, 9), max_size=30))}
 
 
@@ -72,7 +72,7 @@ def verkey(raw):
 
 def run_case(case, ctx):
     from vf import boot as _boot
-    _boot.set_thread_mode(case.get("threads") == "async")      # defer_to_thread answered in a later reactor turn (as in production) or synchronously
+    _boot.set_thread_mode(case.get("threads") or "sync")      # defer_to_thread answered in a later reactor turn (as in production) or synchronously
     from allmydata.monitor import Monitor
     from allmydata.mutable.repairer import MustForceRepairError
     from allmydata import uri
